@@ -20,6 +20,24 @@ theorem quote_valid_iff (lv : Option Elem → Elem → Bool) (path : List Elem) 
       path.getLast? = some quote ∧ ∀ l ∈ Props.C06.links none path, lv l.1 l.2 = true :=
   Props.C06.valid_iff lv path none quote
 
+/-- **the property, link by link**: with the per-link facts of a certificate (`facts certifier element`),
+    the quote target is reported valid if and only if it is the last element of its path and every
+    element of the path — every X.509 certificate inside its validity period and signed by the X.509
+    certificate above it (the root of trust at the top), the attestation key bound to its report data
+    and signed by its certifier's key, the quote bound to its custom data and signed by the attestation
+    key — satisfies its condition; for paths of any length -/
+theorem quote_valid_iff_conditions (facts : Option Elem → Elem → LinkFacts) (path : List Elem) (quote : Elem) :
+    validateDown (fun c e => linkValid (facts c e)) none path = some (.valid quote) ↔
+      path.getLast? = some quote ∧ ∀ l ∈ Props.C06.links none path, LinkHolds (facts l.1 l.2) := by
+  exact Props.C06.valid_iff_conditions facts path none quote
+
+/-- the validity period is compared at the clock's own resolution: a certificate whose `notAfter` lies
+    before `now`, by however little, is not valid (non-vacuity of the period clause) -/
+example : linkValid { kind := .x509, certifierIsX509 := true, loads := true, sigOk := true,
+                      notBefore := 0, notAfter := 1000000, now := 1000001 } = false ∧
+          linkValid { kind := .x509, certifierIsX509 := true, loads := true, sigOk := true,
+                      notBefore := 0, notAfter := 1000000, now := 1000000 } = true := by decide
+
 /-- sgx_report_body_t: `report_data` starts at byte 320 of a 384-byte report body; inside a
     quote (48-byte header) at byte 368 — the offsets the two bindings compare SHA-256 against -/
 theorem report_data_offsets :
